@@ -111,6 +111,11 @@ var checks = map[string]checkCfg{
 		Rule:        "all combinations of start path {AbsfsNFS.Export, NewServer+Listen with record marking, StartWithPortmapper} x debug x {port 0, explicit port} x option sample {default, read-only, all caches} x backend {vfs, memfs} are started on loopback (60 configurations) and talked to by the nfsx client: NFS NULL, MNT / sent as a multi-fragment record, GETATTR of the mounted handle; every configuration is a distinct non-trivial case; portmapper starts that cannot bind port 111 are reported as inconclusive parts",
 		Assumptions: append([]string{"real sockets on loopback; port 111 must be bindable for the StartWithPortmapper path"}, baseAssumptions...),
 		Phases:      []phase{{Name: "enum", Variant: "plain", Tests: "^TestC28$", QuickShards: 1, ThoroughShards: 1}}},
+	"C17": {Level: "exploration", Technique: "rapid client schedules against a real loopback server; counters, EOFs and goroutine stacks as oracle; also under the race detector",
+		Rule:        "each case draws MaxConnections 1-6, IdleTimeout 100-300 ms, the start path (Listen or Export) and 3-10 steps over {dial k connections concurrently and NULL each, NULL on all, close k, idle for 2 x IdleTimeout, Stop twice, AbsfsNFS.Close twice, Unexport twice}; non-trivial = more dials than MaxConnections, or Stop with open connections; distinct = FNV-64 of the case JSON. Timing assertions are one-sided (at least 2 s slack)",
+		Assumptions: append([]string{"real sockets on loopback and real time; a busy machine can only delay, never fail, an assertion"}, baseAssumptions...),
+		Phases: []phase{rp("rapid", "^TestC17$", 8, 12, 16, 120),
+			{Name: "race", Variant: "race", Tests: "^TestC17$", QuickShards: 2, QuickChecks: 8, ThoroughShards: 8, ThoroughChecks: 60}}},
 	"C02": {Level: "exploration", Technique: "rapid histories vs POSIX tree model + cached-vs-uncached differential",
 		Rule:        "cases are rapid-generated sequential histories of LOOKUP/CREATE/MKDIR/SYMLINK/REMOVE/RMDIR/RENAME/READDIR(PLUS)/GETATTR/READLINK over names {a,b,c} to depth 3, addressed through every handle ever issued (stale ones included); each history runs under the all-off baseline and k cached configurations (quick 3, thorough 6 of 15); non-trivial = a read-type request on a name or directory affected by an earlier successful mutation, executed under a configuration with at least one cache on; distinct = FNV-64 of the case JSON",
 		Assumptions: append([]string{"documented latitude L1-L7 of DESIGN.md §5 C02 (REMOVE of empty dir, UNCHECKED/EXCLUSIVE on existing objects, error code identity not compared against the model, path-bound handles)"}, baseAssumptions...),
